@@ -26,7 +26,14 @@ def main():
             return 2
         for p in props:
             t0 = time.time()
-            r = subprocess.run([os.path.join(VERIF, "check"), p, "quick"], cwd=VERIF, capture_output=True, text=True)
+            # the evidence files describe runs on the unchanged tree: keep them out of reach of a run on a seeded change
+            evp = os.path.join(VERIF, "evidence", p + ".json")
+            saved = open(evp).read() if os.path.exists(evp) else None
+            try:
+                r = subprocess.run([os.path.join(VERIF, "check"), p, "quick"], cwd=VERIF, capture_output=True, text=True)
+            finally:
+                if saved is not None:
+                    open(evp, "w").write(saved)
             lines = [l for l in r.stdout.splitlines() if l.startswith("VIOLATION") or l.startswith("KNOWN-FINDING")]
             kinds = []
             for l in lines:
